@@ -32,6 +32,7 @@ enum Cat { STRUCT, LABEL, VALUE, EQ, REJECT, IO13, IO14, IO15, UB, RACE, STEPS }
 struct Env {
     std::string dir;        // private directory on tmpfs (SimDisk name space)
     bool trace = false;     // print a step-by-step trace (replay)
+    bool dirty = false;     // a run left files behind: the directory is emptied before the next run starts
     std::function<void()> yield; // C18: scheduler yield point (null outside race phases)
 };
 
@@ -191,6 +192,10 @@ struct Runner {
     void sweep(const G &gr, const Model &mo, const char *who) {
         const unsigned n = mo.n;
         const bool dups = mo.hasDuplicates();
+        // graphs loaded from hand-made files can have hundreds of vertices: pair-wise oracles then cover every pair that is an
+        // edge in either orientation plus a deterministic sample of the others (per-vertex and whole-graph oracles stay complete)
+        const bool sparse = n > 24;
+        auto sel = [&](unsigned i, unsigned j) { return !sparse || mo.has(i, j) || mo.has(j, i) || ((i * 31u + j * 17u) % (n / 2 + 1)) == 0; };
         dg.tag(who);
         bool sizeOk = true;
         GS_OBS("getSize", STRUCT, {
@@ -214,6 +219,7 @@ struct Runner {
         // hasEdge for every ordered pair
         for (unsigned i = 0; i < n; ++i)
             for (unsigned j = 0; j < n; ++j) {
+                if (!sel(i, j)) continue;
                 GS_OBS("hasEdge", STRUCT, {
                     bool h = gr.hasEdge(i, j);
                     dg.byte(h);
@@ -328,6 +334,7 @@ struct Runner {
         if constexpr (kind == LABELED) {
             for (unsigned i = 0; i < n; ++i)
                 for (unsigned j = 0; j < n; ++j) {
+                if (!sel(i, j)) continue;
                     const MEdge *e = mo.find(i, j);
                     if (e) {
                         if (!e->known) continue;
@@ -368,6 +375,7 @@ struct Runner {
             }
             for (unsigned i = 0; i < n; ++i)
                 for (unsigned j = 0; j < n; ++j) {
+                if (!sel(i, j)) continue;
                     const MEdge *e = mo.find(i, j);
                     if (e && !e->known) continue;
                     GS_OBS("getEdgeMultiplicity", VALUE, {
@@ -399,6 +407,7 @@ struct Runner {
                 for (unsigned i = 0; i < n && ok; ++i) {
                     if (wm[i].size() != n) { ok = false; break; }
                     for (unsigned j = 0; j < n; ++j) {
+                if (!sel(i, j)) continue;
                         const MEdge *e = mo.find(i, j);
                         if (e && !e->known) continue;
                         dg.dbl(wm[i][j]);
@@ -410,6 +419,7 @@ struct Runner {
             })
             for (unsigned i = 0; i < n; ++i)
                 for (unsigned j = 0; j < n; ++j) {
+                if (!sel(i, j)) continue;
                     const MEdge *e = mo.find(i, j);
                     if (e) {
                         if (!e->known) continue;
